@@ -17,6 +17,7 @@ pub fn generators(cfg: &Cfg) -> Vec<Generator> {
         Generator { name: "blocks", total: graphs, run: run_block, case_cpu_limit_s: 120 },
         Generator { name: "perms", total: cfg.tier.pick(400, 12_000), run: run_perms, case_cpu_limit_s: 120 },
         Generator { name: "paramcycles", total: param_cycles().len() as u64, run: run_param_cycle, case_cpu_limit_s: 60 },
+        Generator { name: "paramblocks", total: cfg.tier.pick(200, 6_000), run: run_param_block, case_cpu_limit_s: 120 },
     ]
 }
 
@@ -258,5 +259,110 @@ fn run_param_cycle(_cfg: &Cfg, index: u64, stats: &mut Stats) {
             | other => format!("control-case-rejected {}", other.brief().chars().take(50).collect::<String>()),
         };
         violation(stats, "paramcycles", index, signature, vec![name.to_string()], json!({"case": name, "verdict": analyzed.verdict.brief(), "sources": sources.to_json()}));
+    }
+}
+
+/// (c') blocks with parameters: the `that` definitions are moved around the parameters (which keep their relative order).
+/// Every parameter has the underlying type Int64, through aliases defined in the same block at several depths, so each
+/// placement is well typed under any argument order and the printed `name=value` lines show which argument reached which
+/// parameter: the mapping must be the same for all placements.
+fn run_param_block(cfg: &Cfg, index: u64, stats: &mut Stats) {
+    let mut rng = Rng::for_case(cfg.seed, "C08/paramblocks", index);
+    let k = 2 + rng.below(3);
+    // definitions: alias chains and values
+    let mut defs: Vec<String> = Vec::new();
+    let mut aliases: Vec<String> = Vec::new();
+    for a in 0..rng.below(4) {
+        let target = if aliases.is_empty() || rng.chance(1, 2) { "Int64".to_string() } else { aliases[rng.below(aliases.len())].clone() };
+        let name = format!("N{a}");
+        defs.push(match rng.below(3) {
+            | 0 => format!("let {name} = {target} that"),
+            | 1 => format!("let {name} : VType = {target} that"),
+            | _ => format!("let {name} = {target} that"),
+        });
+        aliases.push(name);
+    }
+    let mut params: Vec<String> = Vec::new();
+    for i in 0..k {
+        let ty = if !aliases.is_empty() && rng.chance(2, 3) { aliases[rng.below(aliases.len())].clone() } else { "Int64".to_string() };
+        params.push(if rng.chance(1, 2) { format!("param p{i} : {ty} that") } else { format!("param (p{i} : {ty}) that") });
+    }
+    // value definitions that depend on parameters, and an independent one
+    for v in 0..rng.below(3) {
+        let p = rng.below(k);
+        defs.push(format!("let w{v} = (p{p}, {}) that", 500 + v));
+    }
+    if rng.chance(1, 3) {
+        defs.push("let unused = \"u\" that".to_string());
+    }
+    let mut body = "! exit 0".to_string();
+    for i in (0..k).rev() {
+        body = format!("do s{i} <- ! to_string p{i};\ndo l{i} <- ! append \"p{i}=\" s{i};\n! write_line l{i} {{ {body} }}");
+    }
+    let args: Vec<String> = (0..k).map(|i| format!("{}", 11 * (i + 1))).collect();
+    // placements: positions of the definitions among the parameters
+    let n_perm = cfg.tier.pick(6usize, 16usize);
+    let mut texts: Vec<(String, String)> = Vec::new();
+    for perm in 0..n_perm {
+        let mut ds = defs.clone();
+        let mut slots: Vec<usize> = match perm {
+            | 0 => vec![0; ds.len()],  // all definitions before the parameters
+            | 1 => vec![k; ds.len()],  // all after
+            | _ => {
+                rng.shuffle(&mut ds);
+                (0..ds.len()).map(|_| rng.below(k + 1)).collect()
+            }
+        };
+        if perm == 1 {
+            ds.reverse();
+        }
+        let mut lines: Vec<String> = Vec::new();
+        for slot in 0..=k {
+            for (d, s) in ds.iter().zip(slots.iter_mut()) {
+                if *s == slot {
+                    lines.push(d.clone());
+                }
+            }
+            if slot < k {
+                lines.push(params[slot].clone());
+            }
+        }
+        let text = format!("{}begin\nlet blk = {{ begin\n{}\n{}\nend }} that\n! blk {}\nend\n", MiniPrelude::core().text(), lines.join("\n"), body, args.join(" "));
+        texts.push((format!("placement:{perm}"), text));
+    }
+    let mut outcomes: Vec<(String, String, Option<(Vec<u8>, End)>)> = Vec::new();
+    for (label, text) in &texts {
+        let result = pipeline::check_and_run(&Sources::single(text.clone()), b"", &[], 200_000);
+        stats.evaluations += 1;
+        outcomes.push((label.clone(), result.verdict.brief().lines().next().unwrap_or("").to_string(), result.run.map(|r| (r.stdout, r.end))));
+    }
+    if !defs.is_empty() {
+        stats.nontrivial(texts[0].1.as_bytes());
+    }
+    stats.count(&format!("paramblock_{}", if outcomes[0].2.is_some() { "ran" } else { "not_run" }));
+    if index == 3 {
+        stats.sample(json!({"parameter_block_placement_0": texts[0].1.chars().rev().take(500).collect::<String>().chars().rev().collect::<String>(), "observed": outcomes[0].2.as_ref().map(|(o, _)| String::from_utf8_lossy(o).to_string())}));
+    }
+    // the first placement must be accepted and run (all parameters are Int64); every other must agree with it
+    let first = outcomes[0].clone();
+    if first.2.is_none() {
+        violation(stats, "paramblocks", index, format!("parameter-block-rejected {}", first.1.chars().take(40).collect::<String>()), vec![first.0.clone()], json!({"verdict": first.1, "sources": {"root.zy": texts[0].1}}));
+        return;
+    }
+    for (n, (label, verdict, run)) in outcomes.iter().enumerate().skip(1) {
+        if *run != first.2 {
+            let signature = if run.is_none() { "acceptance-depends-on-definition-placement".to_string() } else { "argument-order-depends-on-definition-placement".to_string() };
+            violation(
+                stats,
+                "paramblocks",
+                index,
+                signature,
+                vec![label.clone()],
+                json!({"placement": label, "verdict": verdict, "observed": run.as_ref().map(|(o, e)| json!({"stdout": String::from_utf8_lossy(o), "end": format!("{:?}", e)})),
+                       "first_placement_observed": first.2.as_ref().map(|(o, e)| json!({"stdout": String::from_utf8_lossy(o), "end": format!("{:?}", e)})),
+                       "sources": {"root.zy": texts[n].1}, "first_placement_text": texts[0].1}),
+            );
+            return;
+        }
     }
 }
